@@ -2,6 +2,7 @@
 import os
 
 import common as C
+import optsdom
 import validout
 
 CORPUS = os.path.join(C.VERIF, "corpus", "C05")
@@ -133,11 +134,15 @@ def run(ctx):
     ctx.add_summary(summ, "Create/AddEntry/File.Create history oracle")
     summ = oracle_iat(ctx, ctx.scale(800, 12000), ctx.scale(4, 8))
     ctx.add_summary(summ, "IAT / ADV / mixed-file history oracle (files as rendered by the Writer)")
+    optsdom.run(ctx, "C05")
+    optsdom.selftest(ctx)
     if ctx.tier == "thorough":
         ctx.cov["forbidden_vernacular"] = C.forbidden_vernacular()
 
 
 def replay(path):
+    if optsdom.is_case(path):
+        return optsdom.replay(path)
     ok, out = C.build_harness()
     if not ok:
         print(out[-2000:])
